@@ -1328,7 +1328,7 @@ class Controller:
             )
             return None
 
-        if self.link.find_classic_controller(command.bd_addr) is None:
+        if self.link.find_classic_controller(command.bd_addr) in (None, self):
             # Nobody answers the page: conclude the procedure with a page timeout
             self._send_hci_command_status(
                 hci.HCI_COMMAND_STATUS_PENDING, command.op_code
@@ -2274,6 +2274,13 @@ class Controller:
         See Bluetooth spec Vol 4, Part E - 7.8.66 LE Extended Create Connection Command
         '''
         if not self.link:
+            return
+
+        if not command.initiating_phys:
+            # At least one PHY must be selected
+            self._send_hci_command_status(
+                hci.HCI_ErrorCode.INVALID_COMMAND_PARAMETERS_ERROR, command.op_code
+            )
             return
 
         # Check pending
